@@ -118,6 +118,14 @@ PROPS = {
                         "each goroutine lints objects it owns"],
         "partial": "data races are a property of the Go memory model and of third-party code; the Lean model shows only that zlint's own steps perform no shared writes per the extracted footprints; the real scheduler is observed under -race, not proved",
     },
+    "C11": {
+        "proofs": ["ZlProofs.Props.C11"],
+        "corr": ["config"],
+        "search": [],
+        "trusted_base": TB_COMMON,
+        "assumptions": ["A-TOML: go-toml's parser and reflection-based Unmarshal as abstracted by the typed-field view (key search name/lower/upper/lower-first, exact kind match, unknown keys ignored)"],
+        "partial": "go-toml itself is not modelled beyond the typed-field abstraction; global sections have no fields in this code base",
+    },
     "C06": {
         "proofs": ["ZlProofs.Props.C06"],
         "corr": [],
@@ -273,5 +281,9 @@ CLAIMS.update({
             "text": "interleaving_eq_sequential holds for every schedule of threads whose calls leave the shared world unchanged; that the code's lint and registry-read operations are such calls is decided by the kernel over regenerated footprints (registry_readers_readonly, lock_discipline, steps_preserve_shared). Search: a -race build running 16 linting goroutines plus 6 registry readers at GOMAXPROCS 16/2/1 with the first registry use inside the concurrent phase, results compared with the same calls made alone.",
             "note": "Partial: no race-freedom claim at proof level; third-party code and the Go memory model are outside the model."},
 })
+
+CLAIMS["C11"] = {"technique": "Lean 4 proof (locality, error locality, no-leak state machine) over a typed-field model of configuration + correspondence on generated TOML",
+    "text": "locality / absent_is_default / other_lints_unaffected / not_a_table_is_error / error_local / no_leak_r1 / filter_inherits / defaults_roundtrip_partial hold for all documents, specs and operation sequences. Tie: probe lints (certificate, CRL, one embedding Global) echoing their configured fields under generated TOML (well-typed, ill-typed, scalar/array/array-of-tables where a table is expected, unknown keys, unrelated sections) and SetConfiguration/Filter/lint sequences; the real configurable lints, DefaultConfiguration (valid TOML, a section per configurable lint, no verdict change) and error locality on the real registry.",
+    "note": "Partial: A-TOML. The non-table panic was a genuine defect, repaired by fix: 268fc05."}
 
 NOT_APPLICABLE = {}
